@@ -1,4 +1,5 @@
 import QuillModel.Backend.SinkBack
+import QuillModel.Backend.FlagProofs
 /-!
 # C17 — removing / re-creating loggers never loses statements nor frees state in use
 
@@ -128,6 +129,32 @@ theorem C17_parked_removal_exclusive (s0 : BSt) (h0 : LoggerFresh s0) (ops : Lis
   intro s x hx hal st hst hr
   have h := (FInv_runOps s0 h0.inv ops).1.2.1
   exact ⟨h.noname x hx hal st hst hr, h.excl x hx hal st hst hr⟩
+
+/- Full statement aimed at (not proved): in every reachable state, for every statement `st` of kind `.removal f`
+   in some thread's `accepted` history, `f ∈ s.flags → (s.lgOf st.lg).erased = true` — "`remove_logger_blocking`
+   returns only after the logger is gone". What is missing is the uniqueness of flag numbers across all statements
+   (flush flags and removal flags are drawn from the same counter `nextFlag`), needed to rule out that the flag of a
+   processed Flush request coincides with a pending removal flag. Proved instead: the two places that raise flags
+   raise the right ones — `processLowest` raises exactly the flag of the Flush event it has just popped
+   (`PC.processEvent_flag` + the `raise` leaf of the schedule skeleton), and the logger clean-up raises a recorded
+   removal flag only for a name one of whose objects it has erased in that very pass: -/
+
+/-- **The removal flag is raised only after the erase** (`…_partial`, see the comment above): every flag the logger
+    clean-up adds was recorded (when the removal request was decoded) for a name `g` such that a logger object of
+    name `g`, not erased before, is erased after the clean-up — the store to the flag follows the erase and the
+    sink pruning in `cleanupLoggers`, so a caller parked in `remove_logger_blocking` (it resumes only when its flag
+    is in `flags`) finds the name free and the object gone. -/
+theorem C17_removal_flag_after_erase_partial (s : BSt) :
+    ∀ f ∈ (cleanupLoggers s).flags, f ∈ s.flags ∨
+      ∃ g i, (g, f) ∈ s.removalFlags ∧ i < s.lgs.length ∧ (s.lgOf i).gid = g ∧ (s.lgOf i).erased = false ∧
+        ((cleanupLoggers s).lgOf i).erased = true :=
+  cleanupLoggers_flags s
+
+/-- a caller waiting for a flag resumes only once the flag has been raised -/
+theorem C17_flag_wait (s : BSt) (a f : Nat) (hp : (s.actor a).map (·.pend) = some (Pend.flag f))
+    (hn : s.flags.contains f = false) : resume s a = (s, "parked:sleep") := by
+  unfold resume
+  simp only [hp, hn, Bool.false_eq_true, if_false]
 
 /-! ### `create_or_get_logger` -/
 
